@@ -130,6 +130,18 @@ func HarnessReadOnly() {
 	o := c.options()
 	o.ReadOnly = true
 	o.PreLoadFreelist = zz.Choose(2) == 1
+	{
+		// a read-only open never creates or initialises anything: an existing empty file stays empty
+		empty := zz.TempPath("ro-empty.db")
+		zz.WriteFileBytes(empty, []byte{})
+		edb, err, p := zzOpenCatch(empty, o)
+		zz.Assert(!p, "ro/empty-file-no-panic")
+		zz.Assert(err != nil && edb == nil, "ro/empty-file-read-only-open-fails")
+		zz.Assert(zz.FileSize(empty) == 0, "ro/empty-file-not-written")
+		if edb != nil {
+			_ = edb.Close()
+		}
+	}
 	db, err := Open(path, 0400, o)
 	zz.Assert(err == nil, "ro/open")
 	ev0 := zz.EventCount()
